@@ -814,6 +814,15 @@ def gen_mapping(rng, lm):
     if r < 0.55:
         for i in rng.sample(ids, rng.randint(1, len(ids))):
             ms["map"][i] = rng.choice(["K_" + i, i.upper() + "1", "key " + i, "-" + i])
+        # two fields presented under ONE key (B and b -> "B1") is a layout the library refuses: not a twin case
+        taken: dict = {}
+        for i in ids:
+            key = ms["map"].get(i, i)
+            if key in taken:
+                ms["map"].pop(i, None)
+                if ms["map"].get(taken[key]) == key:
+                    ms["map"].pop(taken[key], None)
+            taken.setdefault(ms["map"].get(i, i), i)
     elif r < 0.7 and all(SNAKE_RE.match(i) for i in ids):
         ms["style"] = rng.choice(["UPPER_SNAKE", "CAMEL", "PASCAL", "LOWER_KEBAB", "UPPER_DOT"])
     elif r < 0.85:
